@@ -505,6 +505,7 @@ func runC01(e *env) {
 	c01Run(e, cases)
 	c01Coverage(e, cases)
 	c01FloatStrings(e)
+	c01FloatArith(e)
 	c01SkipNotes(e)
 }
 
@@ -548,6 +549,34 @@ func c01Coverage(e *env, cases []*xcase) {
 		fns = append(fns, k)
 	}
 	e.res.Histogram["function x argument-kind combinations reached"] = len(fns)
+	// per function and arity: how many of the 8^arity combinations of VALUE kinds were reached (X / O combinations not counted)
+	per := map[string]map[string]bool{}
+	for _, k := range fns {
+		p := strings.Split(k, ":") // fn name kinds...
+		if len(p) < 2 || strings.ContainsAny(strings.Join(p[2:], ""), "XO") {
+			continue
+		}
+		key := p[1] + "/" + strconv.Itoa(len(p)-2)
+		if per[key] == nil {
+			per[key] = map[string]bool{}
+		}
+		per[key][strings.Join(p[2:], "")] = true
+	}
+	var keys []string
+	for k := range per {
+		keys = append(keys, k)
+	}
+	sort.Strings(keys)
+	var parts []string
+	for _, k := range keys {
+		ar, _ := strconv.Atoi(k[strings.IndexByte(k, '/')+1:])
+		total := 1
+		for i := 0; i < ar; i++ {
+			total *= 8
+		}
+		parts = append(parts, fmt.Sprintf("%s: %d of %d", k, len(per[k]), total))
+	}
+	e.res.Note("functions (name/number of arguments: argument-kind combinations reached of 8^n, kinds as the Spec evaluates the arguments): %s", strings.Join(parts, "; "))
 }
 
 // c01SkipNotes: how many generated cases the oracle had to skip, and why.
@@ -559,7 +588,7 @@ func c01SkipNotes(e *env) {
 		if strings.HasPrefix(k, "outside-domain:") {
 			skipped += v
 			cases += v
-			if strings.Contains(k, "inexact-float") {
+			if strings.Contains(k, "numeric-model") {
 				numeric += v
 			}
 			if strings.Contains(k, "float-outside-printing-domain") {
@@ -571,11 +600,12 @@ func c01SkipNotes(e *env) {
 		return
 	}
 	pct := func(n int) string { return strconv.FormatFloat(100*float64(n)/float64(cases), 'f', 2, 64) + "%" }
-	e.res.Note("skipped by the oracle: %d of %d expression cases (%s); of these outside the numeric model (inexact float result, int64 overflow, randomInt, round with digits): %d (%s), "+
+	e.res.Note("skipped by the oracle: %d of %d expression cases (%s); of these outside the numeric model (int64 overflow, randomInt, round with digits, a float beyond the exponent range, an int beyond 2^53 used as a float, a function on a value it cannot treat exactly): %d (%s), "+
 		"float outside the printing domain: %d (%s). Cases with a float outside the OLD printing domain (|x| >= 10^6 or more than 9 fraction bits) among literals and data: %d, of which %d are checked against an expected output or error "+
 		"(%d expected texts contain a float in exponent form). "+
-		"BEFORE Num.fl_to_string covered every finite float64 (commit e7d64ae, quick tier, default seed; printing modelled only for |x| < 10^6 with at most 9 fraction bits, and the generator confined to |x| < 2^11 with 6 fraction bits): "+
-		"291 of 15713 skipped (1.85%%): numeric model 246, printing domain 10, other 35; no case with a float outside that domain was generated. The SAME 15713 cases (VERIF_C01_NARROW_FLOATS=1, groups other than pairwise) with the present model: 279 skipped (1.78%%), printing domain 0.",
+		"HISTORY (quick tier, default seed): (a) commit e7d64ae -- printing modelled only for |x| < 10^6 with at most 9 fraction bits, float results only when exact, generator confined to |x| < 2^11 with 6 fraction bits: 291 of 15713 skipped (1.85%%): numeric model 246, printing domain 10, other 35; "+
+		"(b) Num.fl_to_string for every finite float64, the same 15713 cases (VERIF_C01_NARROW_FLOATS=1, groups other than pairwise): 279 skipped (1.78%%), printing domain 0; with the widened float generator 345 of 17553 (1.97%%), numeric model 309; "+
+		"(c) now: + - * / rounded as IEEE 754 prescribes (Num.fl_add_r ...), an inexact float result is no longer outside the model.",
 		skipped, cases, pct(skipped), numeric, pct(numeric), printing, pct(printing),
 		h["wide-float cases (a float literal or data value with |x| >= 10^6 or more than 9 fraction bits: outside the printing domain of the model before)"],
 		h["wide-float cases checked (expected: error)"]+h["wide-float cases checked (expected: output)"], h["wide-float cases whose expected text has a float in exponent form"])
@@ -844,7 +874,7 @@ func firstLine(s string) string {
 func (c *xcase) expect(e *env, sd specResult) expectation {
 	switch sd.class {
 	case "outofmodel":
-		return expectation{kind: "skip", why: "inexact-float-or-int64-overflow-or-randomInt"}
+		return expectation{kind: "skip", why: "numeric-model(int64-overflow,randomInt,round-with-digits,float-exponent-range,int-beyond-2^53-as-float)"}
 	case "err":
 		return expectation{kind: "error", why: "Spec: no value"}
 	case "ok":
